@@ -74,6 +74,7 @@ func c16(tier string) []*explore.Scenario {
 		out = append(out, c16ServerLinkWriteFault(pos, 4, 1))
 	}
 	out = append(out, c16LateAttach("C16", "Unary", 1), c16LateAttach("C16", "Bidi", 1), c16LateAttachD("C16", "Unary", 1, false, true), c16LateAttachD("C16", "Bidi", 1, false, true))
+	out = append(out, c16ReattachedHealthy("C16", 2, 1))
 	out = append(out, c16RPC("payloads", true, 0))
 	out = append(out, c16Burst(12, 0), c16Burst(50, 0), c16Burst(24, 1))
 	out = append(out, withoutDisconnectCallback(pickScenarios(out, "C16/opseq/", "C16/reattach/after-old-fails")...)...)
@@ -672,4 +673,55 @@ func c16LateAttachD(prop string, kind string, bound int, noDemux, slowLog bool) 
 			}
 		},
 	}
+}
+
+// c16ReattachedHealthy: the application attaches a second connection under a name whose first connection is still
+// open and healthy (a client that reconnected before the old connection was noticed dead - or was never dead). Calls
+// made over the newer connection are answered on the newer connection.
+func c16ReattachedHealthy(prop string, n, bound int) *explore.Scenario {
+	fam := prop + "/reattached-healthy"
+	return &explore.Scenario{
+		Name: fmt.Sprintf("%s/reattached-healthy/calls=%d/d=%d", prop, n, bound), Family: fam, Prop: prop, Bound: bound,
+		Run: func() {
+			w := env.NewWorld()
+			env.MsgSize = 0
+			t := env.NewProxyTopo(w, env.ProxyOpts{Clients: 1, PreAttach: true, Cap: 64})
+			vsched.Settle()
+			first := w.Rec("first", "Unary")
+			w.CallUnary(t.CCs[0], context.Background(), first, "x")
+			checkUnary(first, "x", fam)
+			p2 := env.NewPipe(t.Tap, env.PipeOpts{Name: "cli0-again", Cap: 64})
+			t.Proxy.AddClient("cli0", p2.B)
+			cc2 := goat.NewClientConn(p2.A, "cli0", "srv")
+			vsched.Settle()
+			vsched.Explore(true)
+			var rs []*env.Rec
+			for i := 0; i < n; i++ {
+				r := w.Rec(fmt.Sprintf("again%d", i), "Unary")
+				rs = append(rs, r)
+				vsched.GoNamed("caller-"+r.Tag, func() { w.CallUnary(cc2, context.Background(), r, "x") })
+				if i == 0 {
+					vsched.Quiesce()
+				}
+			}
+			vsched.Quiesce()
+			for _, r := range rs {
+				checkUnary(r, "x", fam)
+			}
+			for _, e := range t.Tap.Events {
+				if e.Wire == "cli0" && e.Dir == "b2a" && e.Seq > 0 && strings.HasPrefix(tagOfReply(e.Rpc), "again") {
+					vsched.Fail(fam+"|wrong-connection", "the reply to a call made over the newer connection was written on the older one")
+				}
+			}
+		},
+	}
+}
+
+// tagOfReply: the tag a unary reply of the harness's service echoes ("R:<tag>|...")
+func tagOfReply(rpc *env.Rpc) string {
+	m := new(env.Msg)
+	if rpc.GetBody() == nil || unmarshal(rpc.GetBody().GetData(), m) != nil {
+		return ""
+	}
+	return strings.TrimPrefix(string(m.Value), "R:")
 }
